@@ -130,7 +130,8 @@ CmpV(m, op, a, b) ==
        LET la == IF a.t = "str" THEN a.i ELSE TabLen(m, a)
            lb == IF b.t = "str" THEN b.i ELSE TabLen(m, b) IN
        IF la < lb THEN "T" ELSE IF la > lb THEN "F"
-       ELSE IF op = "Less" THEN "F" ELSE "U"
+       \* equal length: never less; "less than or equal" (the documented meaning of the instruction) is then "equal"
+       ELSE IF op = "Less" THEN "F" ELSE EqV(m, a, b)
   ELSE "U"
 Tri(m, r) == IF r = "U" THEN Unspec ELSE VBool(r = "T")
 TruthV(m, x) == IF IsUnspec(x) \/ IsTok(x) THEN "U" ELSE IF Truthy(x, TabLen(m, x)) THEN "T" ELSE "F"
